@@ -105,13 +105,13 @@ def run(ctx):
     if drv:
         _unit_base_premise(ctx, drv, quick)
     # the grid of (log2 trace length, collision resistance) points for the exhaustive option sweep
-    tls, crs = [3, 10, 18, 24, 31, 32], [96, 112, 124, 128]
+    tls, crs = [3, 10, 18, 24, 27, 30], [96, 112, 124, 128]
     if quick:
         grid = [(tls[ctx.seed % len(tls)], crs[(ctx.seed // 7) % len(crs)])]
     else:
         grid = [(t, c) for t in tls for c in crs]
     sweep = {"options_per_grid_point": 255 * 7 * 33 * 3 * 3, "grid_points": [], "exhaustive": True,
-             "space": "queries 1..255 x blowup {2,4,8,16,32,64,128} x grinding 0..32 x degree {1,2,3} x field {f62,f64,f128}"}
+             "space": "queries 1..255 x blowup {2,4,8,16,32,64,128} x grinding 0..32 x degree {1,2,3} x field {f62,f64,f128}, restricted to trace length * blowup <= u32::MAX (no other context can be constructed or read)"}
     profiles = ("debug",) if quick else ("debug", "release")
     for profile in profiles:
         debug = profile == "debug"
@@ -129,7 +129,10 @@ def run(ctx):
                 lines = out.split("\n")
                 ctx.correspondence(f"conj-exhaustive:tracelog={t}:cr={c}:{profile}", lines, drv, compare=cmp)
                 n = sum(1 for l in lines if " => " in l)
-                ctx.ob(f"sweep-size:tracelog={t}:cr={c}:{profile}", n == sweep["options_per_grid_point"], f"{n} lines")
+                # a context exists iff the LDE domain fits u32 (trace length * blowup <= u32::MAX; Context::new asserts it, the
+                # reader refuses anything else), i.e. tracelog + log2(blowup) <= 31
+                expect = 255 * 33 * 3 * 3 * sum(1 for lb in range(1, 8) if t + lb <= 31)
+                ctx.ob(f"sweep-size:tracelog={t}:cr={c}:{profile}", n == expect, f"{n} lines, expected {expect}")
                 if debug:
                     sweep["grid_points"].append({"tracelog": t, "cr": c, "cases": n})
             n = 1500 if quick else 40000
